@@ -366,7 +366,17 @@ class C11(Prop):
                                "post": copy.deepcopy(p1 + p2)}
 
     # -- implementation --------------------------------------------------------
+    @staticmethod
+    def _as_c11(case):
+        """a C06-shaped case (a witness of a finding registered for both properties):
+        its history, then clone()"""
+        if "pre" in case or case.get("kind") == "heap":
+            return case
+        return {"fs": case.get("fs", []), "init": case["init"], "pre": list(case.get("ops", [])),
+                "into": None, "post": [], "into_const": False}
+
     def run_impl(self, case):
+        case = self._as_c11(case)
         if case.get("kind") == "heap":
             return run_heap(case)
         rng = random.Random(1)
@@ -431,6 +441,7 @@ class C11(Prop):
             s.close()
 
     def to_coq(self, case, obs):
+        case = self._as_c11(case)
         if case.get("kind") == "heap":
             o = "(HErr %s)" % ct.err(obs["err"]) if "err" in obs else \
                 "(HOk %s %s)" % (c_heap(obs["h1"]), ct.lst([ct.n(r) for r in obs["res"]]))
